@@ -59,6 +59,7 @@ type VC struct {
 	localObjs  map[*Term]*localObj // objects allocated by the function under verification that have not escaped
 	localOrder []*Term
 	escWhy     string
+	cellAlloc  map[int]*ssa.Alloc
 	matchedAsserts map[*CallAssert]bool
 	seenCallees    map[string]bool
 	macs       map[*Term]*macState
@@ -1082,6 +1083,13 @@ func (vc *VC) execLoop(fx *FuncCtx, L *Loop, st *State, fr *Frame, ins []*State)
 		for _, f := range facts {
 			vc.assume(h, f)
 		}
+		// a counter variable (every store in the loop adds a non-negative constant to it) never falls below its
+		// entry value (integers are mathematical)
+		if ft, ok := fv.(*Term); ok && ft.Sort.Kind == SInt {
+			if ot, ok := old.(*Term); ok && ot.Sort.Kind == SInt && isCounterCell(vc.cellAlloc[id], L) {
+				vc.assume(h, Ge(ft, ot))
+			}
+		}
 		for _, r := range refComponents(fv) {
 			vc.assume(h, Lt(r, newBase))
 		}
@@ -1103,6 +1111,13 @@ func (vc *VC) execLoop(fx *FuncCtx, L *Loop, st *State, fr *Frame, ins []*State)
 		hphi[phi] = fv
 		for _, f := range facts {
 			vc.assume(h, f)
+		}
+		// a counter: every back edge carries phi + k with a constant k >= 0, so the value never falls below its
+		// entry value (induction over iterations; integers are mathematical)
+		if ft, ok := fv.(*Term); ok && ft.Sort.Kind == SInt {
+			if et, ok := ephi[phi].(*Term); ok && et.Sort.Kind == SInt && isUpCounter(phi, L, fx) {
+				vc.assume(h, Ge(ft, et))
+			}
 		}
 	}
 	henv := vc.specEnvFor(fx, h, fr)
@@ -1501,3 +1516,79 @@ func (vc *VC) posStr(p token.Pos) string {
 }
 
 type bigI = big.Int
+
+// isUpCounter: all operands of phi that arrive over back edges of L have the form phi + c with a constant c >= 0.
+func isUpCounter(phi *ssa.Phi, L *Loop, fx *FuncCtx) bool {
+	b := phi.Block()
+	found := false
+	for i, pred := range b.Preds {
+		if !L.Blocks[pred] {
+			continue
+		}
+		found = true
+		bo, ok := phi.Edges[i].(*ssa.BinOp)
+		if !ok || bo.Op != token.ADD {
+			return false
+		}
+		var c *ssa.Const
+		if bo.X == ssa.Value(phi) {
+			c, _ = bo.Y.(*ssa.Const)
+		} else if bo.Y == ssa.Value(phi) {
+			c, _ = bo.X.(*ssa.Const)
+		}
+		if c == nil || c.Value == nil {
+			return false
+		}
+		if v, ok := constant.Int64Val(constant.ToInt(c.Value)); !ok || v < 0 {
+			return false
+		}
+	}
+	return found
+}
+
+// isCounterCell: every store to the local inside the loop writes (load of the same local) + c, c >= 0 constant.
+func isCounterCell(a *ssa.Alloc, L *Loop) bool {
+	if a == nil || a.Referrers() == nil {
+		return false
+	}
+	found := false
+	for _, r := range *a.Referrers() {
+		st, ok := r.(*ssa.Store)
+		if !ok {
+			// loads are fine; anything else (address escapes to a call, field address ...) disqualifies
+			if u, isLoad := r.(*ssa.UnOp); isLoad && u.Op == token.MUL {
+				continue
+			}
+			if _, isDbg := r.(*ssa.DebugRef); isDbg {
+				continue
+			}
+			return false
+		}
+		if st.Addr != ssa.Value(a) {
+			return false
+		}
+		if !L.Blocks[st.Block()] {
+			continue
+		}
+		found = true
+		bo, ok := st.Val.(*ssa.BinOp)
+		if !ok || bo.Op != token.ADD {
+			return false
+		}
+		var c *ssa.Const
+		var ld ssa.Value
+		if k, isC := bo.Y.(*ssa.Const); isC {
+			c, ld = k, bo.X
+		} else if k, isC := bo.X.(*ssa.Const); isC {
+			c, ld = k, bo.Y
+		}
+		u, isLoad := ld.(*ssa.UnOp)
+		if c == nil || c.Value == nil || !isLoad || u.Op != token.MUL || u.X != ssa.Value(a) {
+			return false
+		}
+		if v, ok := constant.Int64Val(constant.ToInt(c.Value)); !ok || v < 0 {
+			return false
+		}
+	}
+	return found
+}
